@@ -726,8 +726,9 @@ func runCase(input string) string {
 		extra++
 	}
 	after := settleGoroutines(baseline+extra, 1500*time.Millisecond)
-	if after > baseline+extra {
+	if after > baseline+extra && !hungRun && waitOK {
 		// a loaded machine: give the exiting goroutines more time before calling it a leak
+		// (after a hang the goroutines of the run are stuck anyway and the worker is replaced)
 		after = settleGoroutines(baseline+extra, 4*time.Second)
 	}
 	leak := after - baseline - extra
